@@ -1,3 +1,4 @@
+import re
 from shexer.core.profiling.class_profiler import RDF_TYPE_STR
 from shexer.model.shape import STARTING_CHAR_FOR_SHAPE_NAME
 from rdflib import Graph, Namespace, URIRef, RDF, BNode, XSD, Literal
@@ -19,6 +20,7 @@ _R_SHACL_PROPERTY_SHAPE_URI = URIRef(_SHACL_NAMESPACE + "PropertyShape")
 
 _R_SHACL_TARGET_CLASS_PROP = URIRef(_SHACL_NAMESPACE + "targetClass")
 _R_SHACL_PATH_PROP = URIRef(_SHACL_NAMESPACE + "path")
+_ABSOLUTE_IRI = re.compile(r"[A-Za-z][A-Za-z0-9+.\-]*:")
 _R_SHACL_INVERSE_PATH_PROP = URIRef(_SHACL_NAMESPACE + "inversePath")
 _R_SHACL_MIN_COUNT_PROP = URIRef(_SHACL_NAMESPACE + "minCount")
 _R_SHACL_MAX_COUNT_PROP = URIRef(_SHACL_NAMESPACE + "maxCount")
@@ -216,7 +218,7 @@ class ShaclSerializer(object):
     def _generate_r_uri_for_str_uri(self, property_str):
         if property_str.startswith("<") and property_str.endswith(">"):
             return URIRef(property_str[1:-1])
-        elif property_str.startswith("http://") or property_str.startswith("https://"):
+        elif _ABSOLUTE_IRI.match(property_str) is not None:  # any scheme (http:, https:, urn:, mailto:...), not only http(s)
             return URIRef(property_str)
         raise ValueError("Having troubles recognizing this URI", property_str, ". "
                         "Is it well-formed? If you think so, add a GitHub issue. ")
